@@ -7,6 +7,7 @@ CONSTANTS
   Offs = {0}
   Rtds = {1}
   DistinctOnly = FALSE
+  Clk0s = {0, 1}
   MaxEv = 10
   FilterAverage = 5
 VIEW View
